@@ -5,18 +5,20 @@ LEAN_MODULE = 'TailF'
 IMPORTS = []
 OPENS = []
 
+# locals are keyed by their defining expression, so that renaming a local does not disturb the extraction
 _vars = {
-    'self.sz': ('ssz', 'int'), 'newsz': ('newsz', 'int'),
-    'sz': ('sz', 'int'), 'head': ('head', 'int'),
-    'self.ino': ('sino', 'int'), 'ino': ('ino', 'int'),
+    'self.sz': ('ssz', 'int'), 'head': ('head', 'int'), 'self.ino': ('sino', 'int'),
+    'os.stat(self.filename)[stat.ST_INO]': ('ino', 'int'),
 }
+_vars_init = dict(_vars, **{'self._fsize()': ('sz', 'int')})
+_vars_more = dict(_vars, **{'self._fsize()': ('newsz', 'int')})
 SITES = [
     # __init__: a3 `sz = self._fsize()`, g0 `sz >= head`, a4 `self.sz = sz - head`
-    Site('supervisor/http.py', 'tail_f_producer.__init__', 'tfInit', '(sz head : Int)', _vars,
+    Site('supervisor/http.py', 'tail_f_producer.__init__', 'tfInit', '(sz head : Int)', _vars_init,
          want={'tfInit_g0', 'tfInit_a4'}),
     # more: a2 bytes_added, g0 `< 0`, a3 `self.sz = 0`, a4 marker, g1 `> 0`, a6 `self.sz = newsz`
     # c0 = self.file.seek(-bytes_added, 2), c1 = self.file.read(bytes_added)
-    Site('supervisor/http.py', 'tail_f_producer.more', 'tfMore', '(ssz newsz : Int)', _vars,
+    Site('supervisor/http.py', 'tail_f_producer.more', 'tfMore', '(ssz newsz : Int)', _vars_more,
          want={'tfMore_a1', 'tfMore_a2', 'tfMore_g0', 'tfMore_a3', 'tfMore_a4', 'tfMore_g1', 'tfMore_a6',
                'tfMore_c0_0', 'tfMore_c0_1', 'tfMore_c1_0'},
          str_as_bytes=True, calls=('self.file.seek', 'self.file.read')),
